@@ -1,4 +1,5 @@
 import DclabModel.Lemmas.Cli
+import DclabModel.Properties.C01
 /-!
 # C09 — Split partitions and join concatenates events without loss or reordering
 
@@ -324,6 +325,82 @@ theorem join_split_roundtrip (x : Meas) (N s : Nat) (hs : 0 < s) (hsN : s < N)
     have := congrArg List.length (hcols .index)
     rw [hlen, List.length_flatten, List.map_map] at this
     exact this
+
+/-! ### chunk-wise writing and joins of joins -/
+
+/-- **Join through the chunk-wise writer.**  Non-scalar features reach the file through
+`RTDCWriter.write_ndarray`'s resize-and-populate loop (model and proof: property C01).  Appending
+the blocks of the inputs one after the other through that loop — each at the offset reached so
+far, which in general is *not* a multiple of the chunk size — yields the concatenation, for every
+chunk size. -/
+theorem chunked_join_concat (cs : Nat) (blocks : List (List DclabModel.Writer.Tok)) :
+    ∀ first : List DclabModel.Writer.Tok,
+    blocks.foldl (fun acc b => DclabModel.Writer.populateNd cs acc.length
+        (DclabModel.Writer.resize acc (acc.length + b.length)) b) first
+      = first ++ blocks.flatten := by
+  induction blocks with
+  | nil => intro first; simp
+  | cons b r ih =>
+    intro first
+    rw [List.foldl_cons, DclabModel.C01.chunkwise_write_eq_append, ih]
+    simp [List.append_assoc]
+
+/-- **Join of joins.**  If a joined file (`mid`, holding at least the logs of the first-level
+join) is input number `p+1` of a second join, every log `(n, lines)` of first-level source `i+1`
+is retained in the second-level result under `src-#(p+1)_src-#(i+1)_n` with its lines unchanged. -/
+theorem join_of_join_logs (a0 : Meas) (arest : List Meas) (i : Nat) (src : Meas)
+    (hsrc : (a0 :: arest)[i]? = some src) (nl : String × List String) (hl : nl ∈ src.logs)
+    (m0 : Meas) (rest : List Meas) (p : Nat) (mid : Meas) (hmid : (m0 :: rest)[p]? = some mid)
+    (hkeep : ∀ j1, joinSorted (a0 :: arest) = some j1 → ∀ e ∈ j1.logs, e ∈ mid.logs) :
+    ∃ j2, joinSorted (m0 :: rest) = some j2 ∧
+      (srcPrefix (p + 1) ++ (srcPrefix (i + 1) ++ nl.1), nl.2) ∈ j2.logs := by
+  obtain ⟨j1, h1, hmem⟩ := join_logs a0 arest i src hsrc nl hl
+  exact join_logs m0 rest p mid hmid (srcPrefix (i + 1) ++ nl.1, nl.2) (hkeep j1 h1 _ hmem)
+
+theorem joinLogsFrom_name_form (ms : List Meas) : ∀ (b : Nat) (e : String × List String),
+    e ∈ joinLogsFrom b ms → ∃ j c, b ≤ j ∧ e.1 = srcPrefix j ++ c := by
+  induction ms with
+  | nil => intro b e h; simp [joinLogsFrom] at h
+  | cons m r ih =>
+    intro b e h
+    simp only [joinLogsFrom, List.mem_append] at h
+    rcases h with h | h
+    · simp only [prefixedLogs, List.mem_map] at h
+      obtain ⟨nl, _, rfl⟩ := h
+      exact ⟨b, nl.1, Nat.le_refl _, rfl⟩
+    · obtain ⟨j, c, hj, hc⟩ := ih (b + 1) e h
+      exact ⟨j, c, by omega, hc⟩
+
+/-- **Distinct names.**  If the log names inside every input are distinct, all names in the
+joined file are distinct — given that the prefixes `src-#i_` of different positions can never
+produce the same name (`hpf`; for the concrete prefixes this rests on the decimal rendering of
+`i` followed by `_`, checked by correspondence only). -/
+theorem join_log_names_distinct
+    (hpf : ∀ (i j : Nat) (a c : String), i ≠ j → srcPrefix i ++ a ≠ srcPrefix j ++ c)
+    (ms : List Meas) (hnd : ∀ m ∈ ms, (m.logs.map (·.1)).Nodup) :
+    ∀ b, ((joinLogsFrom b ms).map (·.1)).Nodup := by
+  induction ms with
+  | nil => intro b; simp [joinLogsFrom]
+  | cons m r ih =>
+    intro b
+    simp only [joinLogsFrom, List.map_append]
+    rw [List.nodup_append]
+    refine ⟨?_, ih (fun x hx => hnd x (List.mem_cons_of_mem _ hx)) (b + 1), ?_⟩
+    · have h0 := hnd m (List.mem_cons_self ..)
+      simp only [prefixedLogs, List.map_map]
+      have : ((fun x : String × List String => x.1) ∘ fun nl : String × List String =>
+          (srcPrefix b ++ nl.1, nl.2)) = (fun s => srcPrefix b ++ s) ∘ (fun x => x.1) := rfl
+      rw [this, ← List.map_map]
+      exact List.Pairwise.map _ (fun x y hne h => hne ((String.append_right_inj _).mp h)) h0
+    · intro x hx y hy hxy
+      simp only [List.mem_map] at hx hy
+      obtain ⟨e1, he1, rfl⟩ := hx
+      obtain ⟨e2, he2, rfl⟩ := hy
+      simp only [prefixedLogs, List.mem_map] at he1
+      obtain ⟨nl, _, rfl⟩ := he1
+      obtain ⟨j, c, hj, hc⟩ := joinLogsFrom_name_form r (b + 1) e2 he2
+      rw [hc] at hxy
+      exact hpf b j nl.1 c (by omega) hxy
 
 /-! ### non-vacuity -/
 
